@@ -61,7 +61,6 @@ theorem memBzOuter_ok (S avail n fuel r : Nat) (h : mulMemReq S ≤ avail) (hr :
     `div::div_rem_in_place` (schoolbook: none; Burnikel–Ziegler: those of `mul::add_signed_mul`) -/
 theorem memDivide_ok (lhsLen rhsLen : Nat) (h : rhsLen ≤ lhsLen) (h2 : 2 ≤ rhsLen) :
     memDivide lhsLen rhsLen = .ok () := by
-  have hts : thresholdSimple = 32 := rfl
   have hc : lhsLen ≥ rhsLen ∧ rhsLen ≥ 2 := ⟨h, h2⟩
   simp only [memDivide, divMemReq]
   rw [if_neg (not_not.mpr hc)]
